@@ -4,16 +4,20 @@ import re
 from collections import defaultdict
 from lib.facts import CallGraph, find, walk, is_node, path_of, render, render_stmt, render_pat, fns_in_type, strip_refs
 from lib.mirq import Slice
+from lib.synflow import Inliner, GuardWalk, DEAD, origin, resolve_value, value_closure, const_table, int_value, bool_value, called, let_defs, binders, is_inlined, tail_of
+from lib.synflow import narrow as narrow_
 
 TECHNIQUE = ("per-arm call classification of section_element()/paragraph_element() against a partition of the SectionElement variants (executing / inline "
-             "carrier / inert) read from the expanded syntax; statement-order rules for the disabled test and the namespace branch; provenance of the "
-             "interpreter handed to the fence evaluator; error-isolation shape of eval_fenced_code_block; MIR provenance of the closing-fence parser in code_block")
+             "carrier / inert) read from the expanded syntax, on the INLINED view of each function (calls to private helpers of the crate replaced by their bodies, "
+             "lib/synflow.Inliner); guard tracking (lib/synflow.GuardWalk: what is known about one predicate - fence disabled / namespace is 0 / isolation flag - at every "
+             "evaluator call, fence evaluation and Err exit, whatever the spelling of the test); provenance of the interpreter handed to the fence evaluator; "
+             "MIR provenance of the closing-fence parser in code_block")
 EXPLANATION = (
     "Decides structural clauses of C10: (R1) in section_element() the arms of prose variants only hash their node (no evaluator, no symbol access); inline "
     "carriers (paragraph, comment, table, figure table) reach only paragraph_element(), which evaluates only inline-eval code; a new SectionElement variant "
-    "must be classified; (R2) in the fenced-code arm the `disabled` test is the first statement and returns before any evaluation; (R3) namespace 0 runs in "
+    "must be classified; (R2) in the fenced-code arm every evaluator call sits where `disabled` is known to be false (the test returns before any evaluation); (R3) namespace 0 runs in "
     "the parent with isolation off, any other namespace runs in the sub-interpreter stored under that id, created by Interpreter::new with only the function "
-    "table copied, with isolation on; (R4) in eval_fenced_code_block every Err return is preceded by the isolate_errors return; (R5) sections and elements "
+    "table copied, with isolation on; (R4) in eval_fenced_code_block (and the helpers its exits go through) every Err exit sits where isolate_errors is known to be false; (R5) sections and elements "
     "are visited in forward order; (R6) in the parser a code fence is terminated by the same sigil parser that opened it (the terminator and the body "
     "look-ahead derive from the opening parse), and the sigil selector maps each token kind to the parser that produces that kind. "
     "Not decided: the parser's classification of arbitrary paragraph shapes as prose or code."
@@ -29,18 +33,9 @@ INERT = {"Prompt", "InfoBlock", "QuestionBlock", "WarningBlock", "ErrorBlock", "
 EVAL_FNS = re.compile(r"^(mech_code|section_element|eval_fenced_code_block|comment|paragraph_element|section|statement|expression|program|body|interpret|function_define|variable_define|subscript|formula)$")
 
 
-def called(node):
-    out = set()
-    for c in find(node, "call"):
-        p = path_of(c[1])
-        if p:
-            out.add(p.split("::")[-1])
-    for m in find(node, "mcall"):
-        out.add("." + m[2])
-    return out
-
-
-# ---- roles are recognised by signature position/type, pattern bindings and provenance - never by the spelling of a local
+# ---- roles are recognised by signature position/type, pattern bindings and provenance - never by the spelling of a local, and never by WHICH function a
+# ---- piece of the mechanism lives in: the rules below look at the inlined view of a function (lib/synflow.Inliner: calls to private helpers of the crate are
+# ---- replaced by their bodies) and track guards with lib/synflow.GuardWalk (nested if / guard clause / match / negation / named local are all the same)
 def params_of_type(it, type_name):
     """names of the parameters of fn item `it` whose declared type is `type_name` behind any number of `&` / `&mut` / lifetimes (a role by TYPE, not by spelling)"""
     out = []
@@ -52,55 +47,63 @@ def params_of_type(it, type_name):
 
 
 def var_of(e):
-    """the variable an expression denotes after stripping references, dereferences and parentheses; None if it is not a plain variable"""
-    e = strip_refs(e)
-    while is_node(e) and e[0] == "paren":
-        e = strip_refs(e[1])
-    return path_of(e)
+    """the variable an expression denotes after stripping references and dereferences; None if it is not a plain variable"""
+    return path_of(strip_refs(e))
 
 
-def let_defs(stmts, deep=True):
-    """local name -> initialiser AST for every `let` binding below `stmts` (tuple patterns bind each of their names to the whole initialiser)"""
-    out = {}
-    for st in (find(stmts, "let") if deep else [s for s in stmts if s[0] == "let"]):
-        if len(st) == 4 and st[2] is not None:
-            for pi in find(st[1], "pident"):
-                out[pi[1]] = st[2]
-    return out
+def is_eval(name):
+    return bool(EVAL_FNS.match(name))
 
 
-TRANSPARENT = {"borrow_mut", "borrow", "as_mut", "as_ref", "clone", "lock", "unwrap", "deref", "deref_mut"}
+def all_defs(deep, W):
+    """the initialisers visible at the walker's current point: every `let` of the (inlined) function, overridden by the lexical scope the walker is in
+    (a pattern-bound name is None = opaque there)"""
+    d = dict(deep)
+    d.update(W.defs)
+    return d
 
 
-def field_origin(e, defs, depth=0):
-    """provenance of a value: follow local aliases (`let a = <e>`), references, parentheses and access-only method calls (borrow_mut, as_mut, ..) down to a
-    field chain; returns (root variable, [field names]) - e.g. `let m = p.sub_interpreters.borrow_mut(); m` -> ("p", ["sub_interpreters"]) - or None"""
-    fields = []
+def unbox(v, defs, depth=0):
+    """the constructor expression behind a default value handed to a map (`Box::new(x)`, `|| Box::new(x)`, `{ let x = ..; Box::new(x) }`, a named local) and the
+    names of the locals it went through: ([names], constructor expression)"""
+    names = []
+    while depth < 16 and is_node(v):
+        depth += 1
+        v = strip_refs(v)
+        if not is_node(v):
+            break
+        if v[0] == "closure":
+            v = v[2]
+        elif v[0] in ("block", "unsafe") and tail_of(v[1]) is not None:
+            defs = dict(defs)
+            defs.update(let_defs(v[1], deep=False))
+            v = tail_of(v[1])
+        elif v[0] == "call" and (path_of(v[1]) or "").split("::")[-2:] in (["Box", "new"], ["Rc", "new"], ["Arc", "new"]) and len(v[2]) == 1:
+            v = v[2][0]
+        elif v[0] == "path" and "::" not in v[1] and defs.get(v[1]) is not None:
+            names.append(v[1])
+            v = defs[v[1]]
+        else:
+            break
+    return names, v
+
+
+def is_alias_of(e, names, defs, depth=0):
+    """`e` denotes one of the locals `names` itself: directly, by reference, through access-only calls or through further named locals"""
     while depth < 16 and is_node(e):
         depth += 1
         e = strip_refs(e)
-        if not is_node(e):
-            return None
-        if e[0] == "paren":
+        if is_node(e) and e[0] == "mcall" and e[2] in ("borrow_mut", "borrow", "as_mut", "as_ref", "deref", "deref_mut") and not e[4]:
             e = e[1]
-        elif e[0] == "mcall" and e[2] in TRANSPARENT and not e[4]:
-            e = e[1]
-        elif e[0] == "try":
-            e = e[1]
-        elif e[0] == "field":
-            fields.insert(0, e[2])
-            e = e[1]
-        elif e[0] == "path":
-            if e[1] in defs and not fields and "::" not in e[1]:
-                e = defs[e[1]]
-            elif e[1] in defs and "::" not in e[1]:
-                sub = field_origin(defs[e[1]], defs, depth)
-                return (sub[0], sub[1] + fields) if sub else (e[1], fields)
-            else:
-                return (e[1], fields)
+        elif is_node(e) and e[0] == "path":
+            if e[1] in names:
+                return True
+            if "::" in e[1] or defs.get(e[1]) is None:
+                return False
+            e = defs[e[1]]
         else:
-            return None
-    return None
+            return False
+    return False
 
 
 def applied_ops(e, defs, body, depth=0, seen=None):
@@ -112,7 +115,7 @@ def applied_ops(e, defs, body, depth=0, seen=None):
         return ops
     for n in find(e, "path"):
         v = n[1]
-        if v in defs and v not in seen and "::" not in v:
+        if defs.get(v) is not None and v not in seen and "::" not in v:
             seen.add(v)
             ops += applied_ops(defs[v], defs, body, depth + 1, seen)
             ops += [mc[2] for mc in find(body, "mcall") if var_of(mc[1]) == v]
@@ -132,10 +135,22 @@ def run(F, rep, tier):
     if not rep.check(len(se) == 1, "C10-R1", "anchor:section_element", "section_element not found"):
         return
     se = se[0]
+    # every rule below reads the INLINED view of its function: a call to a private helper of the crate (free fn or inherent method on a typed receiver) is
+    # replaced by the helper's body with the parameters bound to the arguments, up to 3 levels; the evaluator functions themselves (EVAL_FNS) stay calls -
+    # they are what the rules look for. Extracting a block into a helper, or inlining one, therefore does not change what a rule sees.
+    inl = Inliner(items, stop=is_eval)
+    consts = const_table(items, se["mod"])
+    se_body = inl.view(se)
+    se_defs = let_defs(se_body)
     # the element is the parameter of type &SectionElement, the parent interpreter the parameter of type &Interpreter - whatever they are called
     elem_params = params_of_type(se, "SectionElement")
     parent = set(params_of_type(se, "Interpreter"))
-    m = [x for x in find(se["body"], "match") if var_of(x[1]) in elem_params and any(a[0][0] in ("pts", "ppath") and a[0][1].startswith("SectionElement::") for a in x[2])]
+
+    def is_param(e, names, defs):
+        """`e` is, by provenance (aliases, references, helper parameters), one of the parameters `names` itself"""
+        o = origin(e, defs)
+        return o is not None and o[0] in names and not o[1]
+    m = [x for x in find(se_body, "match") if is_param(x[1], elem_params, se_defs) and any(a[0][0] in ("pts", "ppath") and a[0][1].startswith("SectionElement::") for a in x[2])]
     if not rep.check(len(m) >= 1, "C10-R1", "anchor:match-element", "section_element has no match on the element"):
         return
     arms = {}
@@ -153,7 +168,8 @@ def run(F, rep, tier):
         rep.check(v in EXEC or v in INLINE or v in INERT, "C10-R1", "classified:%s" % v, "SectionElement::%s is not classified as executing / inline carrier / inert in rules/c10.py" % v)
     for v, al in sorted(arms.items()):
         for arm in al:
-            cs = called(arm[2])
+            # everything the arm calls, directly or through private helpers (inlined view)
+            cs = called(arm[2]) | (called(arm[1]) if arm[1] is not None else set())
             ev = sorted(c for c in cs if EVAL_FNS.match(c))
             if v in INERT:
                 rep.check(not ev and not any(c in (".insert", ".borrow_mut", ".symbols", ".save_symbol") for c in cs), "C10-R1", "inert:%s" % v,
@@ -168,9 +184,11 @@ def run(F, rep, tier):
     pe = [it for it in items if it["k"] == "fn" and it["name"] == "paragraph_element" and it["mod"].endswith("mechdown")]
     if rep.check(len(pe) == 1, "C10-R1", "anchor:paragraph_element", "paragraph_element not found"):
         pelem = params_of_type(pe[0], "ParagraphElement")
+        pe_body = inl.view(pe[0])
+        pe_defs = let_defs(pe_body)
         n_pm = 0
-        for mm in find(pe[0]["body"], "match"):
-            if var_of(mm[1]) not in pelem:
+        for mm in find(pe_body, "match"):
+            if not is_param(mm[1], pelem, pe_defs):
                 continue
             n_pm += 1
             for arm in mm[2]:
@@ -181,95 +199,238 @@ def run(F, rep, tier):
                     if "Eval" not in v:
                         rep.check(not ev, "C10-R1", "paragraph:%s" % v, "ParagraphElement::%s (prose) evaluates through %s" % (v, ev), "expanded line %d" % arm[3])
         rep.floor("C10-R1", "paragraph_element matches on its ParagraphElement parameter", n_pm, 1)
-    # R2/R3 fenced arm
-    fa = arms.get("FencedMechCode", [])
-    if rep.check(len(fa) == 1, "C10-R2", "anchor:fenced-arm", "FencedMechCode arm not found"):
-        body = fa[0][2][1] if fa[0][2][0] == "block" else []
-        first = body[0] if body else None
-        # the fence is whatever the arm's pattern binds; its fields (config.disabled, config.namespace, code) are struct fields and keep their names
-        fence = {pi[1] for pi in find(fa[0][0], "pident")}
-        body_defs = let_defs(body, deep=False)
+    # R2/R3 fenced arm. Arms with a match guard (`FencedMechCode(b) if b.config.disabled => ..`) are walked in order, each one under what the failed guards of
+    # the earlier ones say; arms after the first guard-less one are unreachable.
+    fa = []
+    for arm in arms.get("FencedMechCode", []):
+        fa.append(arm)
+        if arm[1] is None:
+            break
+    if rep.check(len(fa) >= 1 and fa[-1][1] is None, "C10-R2", "anchor:fenced-arm", "FencedMechCode arm not found"):
+        deep = let_defs([a[2] for a in fa])
 
-        def reads_fence_field(e, field):
-            """some sub-expression of e is `<fence>...<field>` (the field chain is rooted at the arm's binding, directly or through a local alias)"""
-            for n in walk(e):
-                if n[0] in ("field", "path"):
-                    o = field_origin(n, body_defs)
-                    if o and o[0] in fence and o[1] and o[1][-1] == field:
-                        return True
-            return False
-        ok = first is not None and first[0] == "expr" and is_node(first[1]) and first[1][0] == "if" and reads_fence_field(first[1][1], "disabled") and \
-            not re.search(r"^!|==false|!=true", render(first[1][1]).replace(" ", "")) and \
-            any(r[0] == "ret" for r in find(first[1][2], "ret")) and not any(EVAL_FNS.match(c) for c in called(first[1][2]))
-        rep.check(bool(ok), "C10-R2", "disabled-test-first", "the fenced-code arm does not start with `if <fence>.config.disabled { return .. }`: a disabled fence can run", sample={"first_statement": render_stmt(first)[:100] if first else None})
-        # namespace branch
-        ifs = [st[1] for st in body if st[0] == "expr" and is_node(st[1]) and st[1][0] == "if" and re.search(r"==0|== 0", render(st[1][1]))]
-        if rep.check(len(ifs) == 1 and ifs[0][3] is not None, "C10-R3", "namespace-branch", "no `if namespace == 0 {..} else {..}` branch in the fenced-code arm"):
-            nz = ifs[0]
-            cond = nz[1]
-            while is_node(cond) and cond[0] == "paren":
-                cond = cond[1]
-            cond_e = None
-            if is_node(cond) and cond[0] == "bin" and cond[1] == "==":
-                zero = [x for x in (cond[2], cond[3]) if is_node(x) and x[0] == "int" and re.match(r"0(_?[ui]\d+|usize|isize)?$", str(x[1]))]
-                if len(zero) == 1:
-                    cond_e = cond[3] if zero[0] is cond[2] else cond[2]
-            cond_var = render(cond_e).strip("() ") if cond_e is not None else re.sub(r"\s*==\s*0", "", render(nz[1])).strip("() ")
-            # the id derives from <fence>.config.namespace: by provenance (alias map of the arm's lets), not by the spelling of the local that holds it
-            org = field_origin(cond_e, body_defs) if cond_e is not None else None
-            rep.check(org is not None and org[0] in fence and org[1][-1:] == ["namespace"], "C10-R3", "namespace-id-source", "the fence id tested (%s) is not the block's namespace" % cond_var)
-            zero_calls = [c for c in find(nz[2], "call") if path_of(c[1]) == "eval_fenced_code_block"]
-            other = nz[3][1] if nz[3][0] == "block" else []
-            other_calls = [c for c in find(other, "call") if path_of(c[1]) == "eval_fenced_code_block"]
-            # "the parent" is the &Interpreter parameter of section_element (by type), whatever it is called
-            ok0 = len(zero_calls) == 1 and len(zero_calls[0][2]) == 3 and var_of(zero_calls[0][2][1]) in parent and render(zero_calls[0][2][2]) == "false"
-            rep.check(ok0, "C10-R3", "unnamed-runs-in-parent", "an unnamed fence is not evaluated in the parent interpreter with isolation off: %s" % [render(c)[:80] for c in zero_calls])
-            ok1 = len(other_calls) == 1 and len(other_calls[0][2]) == 3 and render(other_calls[0][2][2]) == "true" and var_of(other_calls[0][2][1]) is not None and var_of(other_calls[0][2][1]) not in parent
-            rep.check(ok1, "C10-R3", "named-runs-isolated", "a named fence is not evaluated with error isolation in an interpreter other than the parent: %s" % [render(c)[:80] for c in other_calls])
-            if other_calls:
-                ivar = var_of(other_calls[0][2][1]) or render(other_calls[0][2][1])
-                odefs = let_defs(other)
-                src = render(odefs.get(ivar)) if ivar in odefs else ""
-                # the map that is indexed: the receiver of `.entry(<id>)` must be, by provenance, the field `sub_interpreters` of the parent interpreter
-                entries = [mc for mc in find(odefs.get(ivar), "mcall") if mc[2] == "entry" and len(mc[4]) == 1 and re.sub(r"\s", "", render(mc[4][0])) == re.sub(r"\s", "", cond_var)]
-                maps = [field_origin(mc[1], odefs) for mc in entries]
-                rep.check(len(entries) >= 1 and all(o is not None and o[0] in parent and o[1] == ["sub_interpreters"] for o in maps), "C10-R3", "named-interpreter-keyed-by-namespace",
-                          "the interpreter for a named fence (`%s`) is not the sub_interpreters entry of that namespace id: %s" % (ivar, src[:120]), sample={"interpreter": src[:100]})
-                # the inserted default: Interpreter::new(id) with only set_functions applied
-                m_ins = re.search(r"or_insert\(Box::new\((\w+)\)\)", src)
-                if rep.check(m_ins is not None, "C10-R3", "named-interpreter-default", "cannot find the default sub-interpreter"):
-                    nv = m_ins.group(1)
-                    init = render(odefs.get(nv)) if nv in odefs else ""
-                    rep.check(re.match(r"Interpreter::new\(%s\)" % re.escape(cond_var), init) is not None, "C10-R3", "named-interpreter-fresh", "the sub-interpreter is not created with Interpreter::new(<namespace>): %s" % init[:80])
-                    muts = [mc for mc in find(other, "mcall") if path_of(mc[1]) == nv]
-                    rep.check({mc[2] for mc in muts} <= {"set_functions"}, "C10-R3", "named-interpreter-shares-functions-only",
-                              "the fresh sub-interpreter is given more than the function table: %s" % sorted({mc[2] for mc in muts}))
-    # R4
+        def walk_fence_arms(atom, on, match_hook=None):
+            """walk the fenced-code arm(s) tracking the predicate described by `atom` (the fence is whatever the arm's pattern binds; its fields config.disabled,
+            config.namespace, code are struct fields and keep their names)"""
+            q0 = None
+            for arm in fa:
+                fence = set(binders(arm[0]))
+                W = GuardWalk(atom=lambda e, w: atom(e, w, fence), on=lambda k, n, q, w: on(k, n, q, w, fence), match_hook=(lambda s, a, w: match_hook(s, a, w, fence)) if match_hook else None, consts=consts)
+                qa = q0
+                if arm[1] is not None:
+                    W.cond(arm[1], q0)
+                    qa = narrow_(q0, W.implied(arm[1], True))
+                    q0 = narrow_(q0, W.implied(arm[1], False))
+                W.expr(arm[2], qa)
+
+        def fence_field(e, w, fence, field):
+            """`e` is, by provenance, `<fence>. .. .<field>` (directly, through a named local, through a helper's parameter)"""
+            if not (is_node(e) and e[0] in ("field", "path", "ref", "un", "mcall", "cast", "block")):
+                return False
+            o = origin(e, all_defs(deep, w))
+            return bool(o and o[0] in fence and o[1] and o[1][-1] == field)
+
+        # ---- R2: Q = "the fence is disabled"; every evaluator call of the arm must sit where Q is known to be false
+        evals = []
+
+        def on_r2(kind, node, q, w, fence):
+            if kind == "call" and path_of(node[1]) and is_eval(path_of(node[1]).split("::")[-1]):
+                evals.append((path_of(node[1]).split("::")[-1], q))
+        walk_fence_arms(lambda e, w, fence: "Q" if fence_field(e, w, fence, "disabled") else None, on_r2)
+        unguarded = sorted({n for n, q in evals if q is not False and q is not DEAD})
+        rep.check(any(q is False for _, q in evals) and not unguarded, "C10-R2", "disabled-test-first",
+                  "the fenced-code arm reaches %s without having established that `<fence>.config.disabled` is false (no `if <fence>.config.disabled { return .. }` "
+                  "before it): a disabled fence can run" % (unguarded or "no evaluator"), sample={"evaluator_calls": sorted({n for n, _ in evals}), "all_behind_disabled_test": not unguarded})
+
+        # ---- R3: Q = "the namespace id of the fence is 0"
+        FLIP = {"==": "==", "!=": "!=", "<": ">", ">": "<", "<=": ">=", ">=": "<="}
+        ns_tests, foreign_tests = [], []
+
+        def zero_test(e, w):
+            """(tested expression, verdict when it IS zero-tested: 'Q' = "is 0" / 'NQ' = "is not 0") for comparisons against the constant 0 (literal, const item,
+            named local) in either operand order; None otherwise"""
+            if not (is_node(e) and e[0] == "bin" and e[1] in FLIP):
+                return None
+            d = all_defs(deep, w)
+            for x, z, op in ((e[2], e[3], e[1]), (e[3], e[2], FLIP[e[1]])):
+                iv = int_value(z, d, consts)
+                if iv == 0 and op in ("==", "<="):
+                    return x, "Q"
+                if iv == 0 and op in ("!=", ">"):
+                    return x, "NQ"
+                if iv == 1 and op == "<":
+                    return x, "Q"
+                if iv == 1 and op == ">=":
+                    return x, "NQ"
+            return None
+
+        def ns_atom(e, w, fence):
+            zt = zero_test(e, w)
+            if zt is None:
+                return None
+            if fence_field(zt[0], w, fence, "namespace"):
+                ns_tests.append(zt[0])
+                return zt[1]
+            return None
+
+        def foreign_atom(e, w, fence):
+            zt = zero_test(e, w)
+            if zt is None or fence_field(zt[0], w, fence, "namespace"):
+                return None
+            return zt[1]
+
+        def ns_match(scrut, arms_, w, fence):
+            """`match <namespace> { 0 => A, _ => B }`"""
+            if not fence_field(scrut, w, fence, "namespace"):
+                return None
+            d = all_defs(deep, w)
+            out, zero_covered = [], False
+            for arm in arms_:
+                vals, rest = set(), False
+                for alt in (arm[0][1] if arm[0][0] == "por" else [arm[0]]):
+                    iv = int_value(alt[1], d, consts) if alt[0] == "plit" else int_value(["path", alt[1]], d, consts) if alt[0] in ("ppath", "pident") and alt[1][:1].isupper() else None
+                    if iv is not None:
+                        vals.add(iv)
+                    else:
+                        rest = True
+                if vals == {0} and not rest:
+                    out.append({True})
+                    ns_tests.append(scrut)
+                    zero_covered = zero_covered or arm[1] is None
+                elif (vals and 0 not in vals and not rest) or (rest and zero_covered):
+                    out.append({False})
+                else:
+                    out.append(set())
+            return out
+        fence_calls = []
+
+        def on_r3(kind, node, q, w, fence):
+            if kind == "call" and path_of(node[1]) and path_of(node[1]).split("::")[-1] == "eval_fenced_code_block":
+                fence_calls.append((node, q, all_defs(deep, w), fence))
+        walk_fence_arms(ns_atom, on_r3, ns_match)
+        zero_calls = [c for c in fence_calls if c[1] is True]
+        other_calls = [c for c in fence_calls if c[1] is False]
+        undistinguished = [c for c in fence_calls if c[1] is None]
+        if rep.check(len(ns_tests) >= 1 and len(zero_calls) >= 1 and len(other_calls) >= 1 and not undistinguished, "C10-R3", "namespace-branch",
+                     "the fenced-code arm does not evaluate the fence once where `<fence>.config.namespace` is known to be 0 and once where it is known not to be "
+                     "(no `if namespace == 0 {..} else {..}` distinction around the evaluator): %d / %d / %d undistinguished" % (len(zero_calls), len(other_calls), len(undistinguished))):
+            # the distinction must not ALSO hang on an id that is not the block's namespace
+            foreign_calls = []
+            walk_fence_arms(foreign_atom, lambda k, n, q, w, f: foreign_calls.append(q) if k == "call" and path_of(n[1]) and path_of(n[1]).split("::")[-1] == "eval_fenced_code_block" else None)
+            rep.check(all(q is None for q in foreign_calls), "C10-R3", "namespace-id-source", "the evaluation of a fence depends on a comparison with 0 of something that is not the block's namespace")
+
+            def is_parent(e, d):
+                # "the parent" is the &Interpreter parameter of section_element (by type and provenance), whatever it is called and whichever helper it went through
+                return is_param(e, parent, d)
+            ok0 = all(len(c[2]) == 3 and is_parent(c[2][1], d) and bool_value(c[2][2], d, consts) is False for c, _, d, _ in zero_calls)
+            rep.check(ok0, "C10-R3", "unnamed-runs-in-parent", "an unnamed fence is not evaluated in the parent interpreter with isolation off: %s" % [render(c[0])[:80] for c in zero_calls])
+            ok1 = all(len(c[2]) == 3 and bool_value(c[2][2], d, consts) is True and not is_parent(c[2][1], d) for c, _, d, _ in other_calls)
+            rep.check(ok1, "C10-R3", "named-runs-isolated", "a named fence is not evaluated with error isolation in an interpreter other than the parent: %s" % [render(c[0])[:80] for c in other_calls])
+            keyed_ok, default_found, fresh_ok, shares_ok, srcs, mut_names = True, True, True, True, [], set()
+            for c, _, d, fence in other_calls:
+                def same_ns(x):
+                    o = origin(x, d)
+                    return bool(o and o[0] in fence and o[1][-1:] == ["namespace"])
+
+                def is_submap(x):
+                    # the map that is indexed must be, by provenance, the field `sub_interpreters` of the parent interpreter
+                    o = origin(x, d)
+                    return bool(o and o[0] in parent and o[1] == ["sub_interpreters"])
+                val = resolve_value(c[2][1], d) if len(c[2]) == 3 else None
+                cl = value_closure(val, d) if val is not None else []
+                srcs.append(render(val)[:120])
+                mcs = [mc for x in cl for mc in find(x, "mcall")]
+                lookups = [mc for mc in mcs if mc[2] in ("entry", "get_mut", "get") and len(mc[4]) == 1 and same_ns(mc[4][0])]
+                keyed_ok = keyed_ok and len(lookups) >= 1 and all(is_submap(mc[1]) for mc in lookups)
+                # the inserted default: Interpreter::new(<namespace>) with only set_functions applied
+                dflt = [mc[4][0] for mc in mcs if mc[2] in ("or_insert", "or_insert_with") and len(mc[4]) == 1]
+                if not dflt:
+                    dflt = [mc[4][1] for a in fa for mc in find(a[2], "mcall") if mc[2] == "insert" and len(mc[4]) == 2 and is_submap(mc[1]) and same_ns(mc[4][0])]
+                if not dflt:
+                    default_found = False
+                    continue
+                for v in dflt:
+                    names, ctor = unbox(v, d)
+                    fresh_ok = fresh_ok and is_node(ctor) and ctor[0] == "call" and (path_of(ctor[1]) or "").split("::")[-2:] == ["Interpreter", "new"] and len(ctor[2]) == 1 and same_ns(ctor[2][0])
+                    for a in fa:
+                        for mc in find(a[2], "mcall"):
+                            if mc[2] != "clone" and is_alias_of(mc[1], names, d):
+                                mut_names.add(mc[2])
+            rep.check(keyed_ok, "C10-R3", "named-interpreter-keyed-by-namespace", "the interpreter for a named fence is not the sub_interpreters entry of that namespace id: %s" % srcs, sample={"interpreter": (srcs or [""])[0][:100]})
+            if rep.check(default_found, "C10-R3", "named-interpreter-default", "cannot find the default sub-interpreter"):
+                rep.check(fresh_ok, "C10-R3", "named-interpreter-fresh", "the sub-interpreter is not created with Interpreter::new(<namespace>)")
+                rep.check(mut_names <= {"set_functions"}, "C10-R3", "named-interpreter-shares-functions-only", "the fresh sub-interpreter is given more than the function table: %s" % sorted(mut_names))
+    # R4: Q = "isolate_errors is true"; every way an Err can leave eval_fenced_code_block (return Err / tail Err / `?` / a Result handed through, directly or in a
+    # helper the exit goes through) must sit where Q is known to be false
     ef = [it for it in items if it["k"] == "fn" and it["name"] == "eval_fenced_code_block"]
     if rep.check(len(ef) == 1, "C10-R4", "anchor:eval_fenced_code_block", "eval_fenced_code_block not found"):
-        n_err = 0
         # the isolation switch is the bool parameter of eval_fenced_code_block (by type), whatever it is called
         iso = set(params_of_type(ef[0], "bool"))
         rep.check(len(iso) == 1, "C10-R4", "anchor:isolation-flag", "eval_fenced_code_block does not take exactly one bool (the isolate-errors switch): %s" % sorted(iso))
-        for blk in [n for n in walk(ef[0]["body"]) if n[0] in ("block",)] + [["block", ef[0]["body"]]]:
-            stmts = blk[1]
-            for i, st in enumerate(stmts):
-                if st[0] == "expr" and is_node(st[1]) and st[1][0] == "ret" and "Err(" in render(st[1]):
-                    n_err += 1
-                    prev = stmts[:i]
-                    ok = any(p_[0] == "expr" and is_node(p_[1]) and p_[1][0] == "if" and path_of(p_[1][1]) in iso and any(True for _ in find(p_[1][2], "ret")) for p_ in prev)
-                    rep.check(ok, "C10-R4", "err-return-behind-isolation", "eval_fenced_code_block returns an Err that is not preceded by `if <the bool isolation parameter> { return Ok(..) }`: an error in a named fence stops the document")
+        ef_body = inl.view(ef[0])
+        st4 = {"err": 0, "try": [], "sources": set()}
+        MSG4 = "eval_fenced_code_block returns an Err at a point where the bool isolation parameter is not known to be false (no `if <flag> { return Ok(..) }` before it / not inside `if !<flag>`): an error in a named fence stops the document"
+
+        def classify(node, q, w, depth=0):
+            e = strip_refs(node)
+            if not is_node(e):
+                return
+            seg = path_of(e[1]).split("::")[-1] if e[0] == "call" and path_of(e[1]) else None
+            if seg == "Ok" or e[0] == "try":
+                return          # the Err side of `x?` is the `try` event
+            if seg == "Err":
+                st4["err"] += 1
+                rep.check(q is False or q is DEAD, "C10-R4", "err-return-behind-isolation", MSG4)
+                return
+            if e[0] == "path" and "::" not in e[1] and depth < 4 and (w.defs.get(e[1]) is not None or e[1] in exit_vars):
+                # a named local: its initialiser is the value (what is assigned to it later is seen at the assignment)
+                if w.defs.get(e[1]) is not None:
+                    for leaf, q2 in w.leaves(w.defs[e[1]], q):
+                        classify(leaf, q2, w, depth + 1)
+                return
+            if q is False or q is DEAD or e[0] == "macro":
+                return          # isolation is off here: whatever Result this is may leave
+            # a Result of unknown content leaves the function while isolation may be on
+            st4["err"] += 1
+            args = e[2] if e[0] == "call" else e[4] if e[0] == "mcall" else []
+            if any(w.cond_value(a) in ("Q", "NQ") for a in args):
+                # the isolation switch is handed to something that cannot be summarised (not a private helper of the crate): the mechanism is there, undecidable here
+                rep.note("undecided", {"rule": "C10-R4", "exit": render(e)[:100]})
+            else:
+                rep.check(False, "C10-R4", "err-return-behind-isolation", MSG4 + " (returns `%s`)" % render(e)[:60])
+
+        # a returned accumulator (`let mut result = Ok(..); .. result = helper(err, flag); break; .. result`): every value assigned to it is an exit value
+        exit_vars = set()
+        GuardWalk(env={n: "Q" for n in iso}, consts=consts, on=lambda k, n, q, w: exit_vars.add(var_of(n)) if k == "exit" and var_of(n) and "::" not in var_of(n) else None).walk_fn(ef_body)
+
+        def on_r4(kind, node, q, w):
+            if kind == "exit":
+                classify(node, q, w)
+            elif kind == "assign" and var_of(node[1]) in exit_vars:
+                for leaf, q2 in w.leaves(node[2], q):
+                    classify(leaf, q2, w)
+            elif kind == "try" and w.at_exit and q is not False and q is not DEAD:
+                st4["try"].append(render(node)[:60])
+            elif kind == "call" and path_of(node[1]) and is_eval(path_of(node[1]).split("::")[-1]):
+                st4["sources"].add(id(node))
+        GuardWalk(env={n: "Q" for n in iso}, on=on_r4, consts=consts).walk_fn(ef_body)
+        # counted per error source: each fallible evaluator call of the loop needs its way out (on this tree: mech_code and the trailing comment -> 2)
+        n_err = max(st4["err"], len(st4["sources"])) if st4["err"] else 0
         rep.floor("C10-R4", "Err returns in eval_fenced_code_block", n_err, 2)
-        rep.check(not any("?" == render(t)[-1:] for t in find(ef[0]["body"], "try")), "C10-R4", "no-question-mark", "eval_fenced_code_block propagates an error with `?` (bypasses isolation)")
+        rep.check(not st4["try"], "C10-R4", "no-question-mark", "eval_fenced_code_block propagates an error with `?` (bypasses isolation): %s" % st4["try"][:3])
     # R5 order
+    ITER = {"for_each", "try_for_each", "map", "fold", "try_fold", "filter_map", "flat_map", "find_map", "all", "any"}
     for fn in ("section", "body", "program"):
         it = [x for x in items if x["k"] == "fn" and x["name"] == fn and x["mod"].endswith("mechdown")]
         for x in it:
-            for f in find(x["body"], "for"):
-                # reordering is recognised by the METHODS / FUNCTIONS / MACROS applied to the iterated collection (rev, sort*, sorted..), not by a substring of the
-                # rendered text (a parameter or local that happens to be called `sorted_sections` or `prev` reorders nothing)
-                ops = applied_ops(f[2], let_defs(x["body"]), x["body"])
-                rep.check(not any(o in ("rev", "reverse") or "sort" in o or "shuffle" in o for o in ops), "C10-R5", "%s:forward" % fn, "%s visits its children as `%s`" % (fn, render(f[2])))
+            xb = inl.view(x)
+            xd = let_defs(xb)
+            # iteration sites: `for` loops and iterator pipelines (`xs.iter().try_for_each(..)`); reordering is recognised by the METHODS / FUNCTIONS / MACROS applied
+            # to the iterated collection (rev, sort*, sorted..), not by a substring of the rendered text (a local that happens to be called `sorted_sections` reorders nothing)
+            sites = [f[2] for f in find(xb, "for")] + [mc[1] for mc in find(xb, "mcall") if mc[2] in ITER and any(is_eval(c) for c in called(mc[4]))]
+            for coll in sites:
+                ops = applied_ops(coll, xd, xb)
+                rep.check(not any(o in ("rev", "reverse", "rposition", "rfold", "try_rfold", "next_back", "pop") or "sort" in o or "shuffle" in o for o in ops), "C10-R5", "%s:forward" % fn, "%s visits its children as `%s`" % (fn, render(coll)))
     # R6 parser side
     sb = {b.fn.split("::")[-1]: b for b in F.bodies("mech_syntax.lib") if "::mechdown::" in b.fn and b.fn.split("::")[-1] in ("code_block", "codeblock_sigil", "grave_codeblock_sigil", "tilde_codeblock_sigil")}
     if rep.check("code_block" in sb and "codeblock_sigil" in sb, "C10-R6", "anchor:code_block", "code_block / codeblock_sigil not found in mech_syntax"):
@@ -323,7 +484,8 @@ def run(F, rep, tier):
     INJECTIVE = {"trim_start_matches", "to_string", "as_str", "clone", "to_owned", "as_ref", "borrow"}
     cb = [it for it in F.syn("mech_syntax.lib") if it["k"] == "fn" and it["name"] == "code_block"]
     if rep.check(len(cb) == 1, "C10-R7", "anchor:code_block-syn", "code_block not found in the syntax tree dump"):
-        body = cb[0]["body"]
+        # inlined view: the BlockConfig construction / the name normalisation may live in a private helper of the parser module
+        body = Inliner(F.syn("mech_syntax.lib")).view(cb[0])
         configs = [s for s in find(body, "struct") if s[1].split("::")[-1] == "BlockConfig"]
         ns = []
         for s in configs:
@@ -358,6 +520,9 @@ def run(F, rep, tier):
                     chain(e[1], depth + 1)
                 elif e[0] in ("ref", "paren", "try"):
                     chain(e[2] if e[0] == "ref" else e[1], depth + 1)
+                elif e[0] == "block" and tail_of(e[1]) is not None:
+                    # `{ let t = ..; t }` / an inlined helper: the value is the tail (its lets are in `lets`)
+                    chain(tail_of(e[1]), depth + 1)
                 elif e[0] == "path":
                     for d in lets.get(e[1], []):
                         seen_defs += 1
